@@ -31,6 +31,17 @@ ZONES = [(0, "UTC"), (-300, "EST"), (330, "IST"), (840, "+14"), (-720, None), (-
          (-419.9333, "LMT"), (-539.8, "LMT"), (59.5, "LMT"), (-0.5, "LMT"), (-1.25, "LMT"), (29.99, None)]
 
 
+import enum as _enum
+
+
+def enum_member(token):
+    """a str-mixin Enum member that EQUALS the token (accepted wherever the token is) but formats as its qualified name"""
+    name = "".join(c if c.isalnum() else "_" for c in token) or "X"
+    if name[0].isdigit():
+        name = "T" + name
+    return _enum.Enum("Tok", {name: token}, type=str)[name]
+
+
 def poison(inst, schema, types, rnd, log):
     """set adversarial values on data elements; values the model refuses are left alone"""
     from ofxtools.models.base import Aggregate
@@ -54,6 +65,11 @@ def poison(inst, schema, types, rnd, log):
                 tz = datetime.timezone(datetime.timedelta(minutes=off), nm) if nm else __import__("types_common").NamelessTZ(off)
                 v = datetime.datetime(rnd.choice([1900, 1999, 2024, 2200]), rnd.randrange(1, 13), rnd.randrange(1, 29), rnd.randrange(24),
                                       rnd.randrange(60), rnd.randrange(60), rnd.choice([0, 499, 500, 999999]), tzinfo=tz)
+                if rnd.random() < 0.08:
+                    # the end of time: written correctly or refused, never with a fourth fraction digit
+                    # (the last half millisecond of year 9999 cannot be rounded: such values are refused)
+                    v = rnd.choice([datetime.datetime.max, datetime.datetime(9999, 12, 31, 23, 59, 59, 999600),
+                                    datetime.datetime(9999, 12, 31, 23, 59, 59, 999500)]).replace(tzinfo=rnd.choice([datetime.timezone.utc, tz]))
             elif k == "int":
                 v = rnd.choice([True, False, 0, -1, 1.0, 1.5, "0x10", " 7", decimal.Decimal("2"), "1_0"])
             elif k == "oneof":
@@ -63,7 +79,8 @@ def poison(inst, schema, types, rnd, log):
                 foreign = "".join(map(chr, rnd.choice(rnd.choice(others)["valid"]))) if others else "X"
                 if [ord(c) for c in foreign] in t["valid"]:
                     foreign = tok + "X"
-                v = rnd.choice([tok.lower(), tok.capitalize(), tok + " ", " " + tok, tok.swapcase(), tok[:-1] or "X", tok + "\n", foreign, foreign])
+                v = rnd.choice([tok.lower(), tok.capitalize(), tok + " ", " " + tok, tok.swapcase(), tok[:-1] or "X", tok + "\n", foreign, foreign,
+                                enum_member(tok), enum_member(tok)])
             elif k == "bool":
                 v = rnd.choice(["y", "n", "Yes", "true", 1, 0, "1", " Y"])
             elif k == "time":
@@ -116,6 +133,28 @@ def run(ctx):
     for i, g in enumerate(gc.simulate_docs(ctx, 500 if quick else 8000, maxtok=40)):
         docs.append(("gen%d" % i, gc.concretise(g, types, rnd, rich=True)))
     evs = []
+    # earlier in this process the client met unusable FI profiles (a foreign token, a malformed body): failures of one
+    # operation leave nothing behind that changes what is written later
+    try:
+        import ofx_server
+        import tempfile
+        import ofxtools.config as _cfg
+        from ofxtools.Client import OFXClient
+        _old = _cfg.DATADIR
+        with tempfile.TemporaryDirectory(dir=ctx.work) as td:
+            _cfg.DATADIR = __import__("pathlib").Path(td)
+            for bad in (ofx_server.profile(mins, "https://p.invalid/ofx").replace("<SYNCMODE>FULL", "<SYNCMODE>SOMETIMES", 1),
+                        ofx_server.profile(mins, "https://p.invalid/ofx")[:-40], "garbage"):
+                c = OFXClient("https://p.invalid/ofx", org="P", fid="1", version=203)
+                c.post_request = lambda url, data, timeout, bad=bad: bad.encode()
+                for call in (lambda: c.request_profile(), lambda: c._get_service_urls()):
+                    try:
+                        call()
+                    except Exception:
+                        pass
+        _cfg.DATADIR = _old
+    except Exception as ex:
+        ctx.extra["profile_prelude_error"] = repr(ex)[:200]
     for n, (name, doc) in enumerate(docs):
         try:
             inst = Aggregate.from_etree(dc.to_etree(doc))
